@@ -96,6 +96,10 @@ def judge_call(opname, out, recs, truth=None):
             return Failure(PROP, "C09.bye", "%s: server said BYE (%r) but the call %r instead of raising Error" % (
                 opname, _raw(recs, b"BYE"), out), {"op": opname})
         return None
+    if last.status != b"NO" and any(st == b"NO" for st in statuses) and out.kind == "ret" and (out.value is False or out.value is None):
+        # a multi-step operation that was refused at one step and went on talking (tidying up) before reporting the
+        # failure: errcode / errmsg still have to be those of the refusal
+        last = [r for r in recs if r.status == b"NO"][-1]
     if last.status == b"NO":
         nonreply = last.verb in (b"<greeting>", b"<post-tls-caps>")
         if nonreply and out.kind == "exc" and out.exc_type == "Error":
